@@ -129,6 +129,10 @@ def tables(tier, z):
                 out.append({"vi": vi, "io": io, z: rows})
                 if ci % 3 == 0:  # the same table with its vi rows listed in descending order
                     out.append({"vi": vi[::-1], "io": io, z: rows[::-1]})
+    if z in ("ig", "vdrop"):  # exact zeros inside a 2-D table (a legal tabulated value, not "outside the hull")
+        a, b, c = vals
+        out.append({"vi": [2.5, 5.0], "io": [0.0, 0.2, 0.9], z: [[0.0, b, c], [a, c, b]]})
+        out.append({"vi": [1.0, 3.3, 12.0], "io": [0.1, 0.5], z: [[a, 0.0], [0.0, b], [c, a]]})
     if z == "ig":  # micro-amp scale io axes (absolute epsilons in the clamping code would show here)
         for io in ([1e-6, 2e-6, 4e-6], [1e-7, 3e-7, 5e-7]):
             # 1-D only: a 2-D table with a micro-amp io axis next to a volt-scale vi axis is not "well-conditioned" in the sense of the
@@ -182,6 +186,28 @@ def check_pair(case):
     return res
 
 
+def check_nano(case):
+    """1-D ground-current tables with nano-amp VALUES: the solver cannot resolve them in Iin (absolute tolerance 1e-8 A), but the Loss cell
+    of a loss-free switch is ig x |Vin| computed from the table directly."""
+    res = Res()
+    t = case["table"]
+    for Vq, Iq in case["queries"]:
+        spec = dict(name="nano", phases=None, comps=[
+            dict(n="S", k="Source", a=dict(vo=Vq, rs=0.0), p=[], g="", r=""),
+            dict(n="X", k="PSwitch", a=dict(rs=0.0, ig=t), p=["S"], g="", r=""),
+            dict(n="L", k="ILoad", a=dict(ii=Iq), p=["X"], g="", r="")])
+        df, _ = quiet_call(build(spec).solve)
+        r = observe(df)[("", "X")]
+        res.stats["evaluations"] += 1
+        val = g(r, "Loss (W)") / abs(Vq)
+        kind, e = expectation(t, "ig", Iq, abs(Vq))
+        if abs(val - e) > 0.05 * e + 2e-11:
+            res.v(("C10.nano-table",), "table %r io=%r: Loss/|Vin| = %r, tabulated %r" % (t["ig"], Iq, val, e))
+    res.nontrivial = 1
+    res.classes.add("nano")
+    return res
+
+
 def check_muxtable(case):
     """a multi-input PMux with a 2-D ig table: the lookup uses the voltage of the SELECTED input (the first one is dead here)."""
     res = Res()
@@ -220,6 +246,8 @@ def check_case(case):
         return check_pair(case)
     if case.get("fam") == "muxtable":
         return check_muxtable(case)
+    if case.get("fam") == "nano":
+        return check_nano(case)
     res = Res()
     carrier, table = case["carrier"], case["table"]
     z = zkey(carrier)
@@ -280,6 +308,8 @@ def gen_cases(tier):
         for t in tables(tier, zkey(carrier)):
             yield dict(carrier=carrier, table=t, tier=tier)
     yield from gen_pairs(tier)
+    for tv in ([2e-9, 6e-9, 11e-9], [9e-9, 3e-9, 1e-9], [5e-9, 5e-9, 5.5e-9]):
+        yield dict(fam="nano", table={"vi": [5.0], "io": [0.01, 0.1, 0.5], "ig": [tv]}, queries=[[5.0, 0.01], [5.0, 0.1], [5.0, 0.3], [5.0, 0.5], [-5.0, 0.1], [5.0, 2.0]])
     vals = VALS["ig"]
     for io, vi in (([0.0, 0.2, 0.9], [2.5, 5.0]), ([0.1, 0.5], [1.0, 3.3, 12.0])):
         for k in range(3):
